@@ -21,6 +21,9 @@ pub struct RefStore {
     pub next_id: usize,
     pub live: BTreeMap<L, usize>,
     pub attacks: BTreeSet<(usize, usize)>,
+    /// how often an existing attack was declared again (the ICCMA reader keeps such duplicates in its
+    /// per-argument lists; the exp encoder's product runs over list ENTRIES). Workload sizing only.
+    pub repeats: BTreeMap<(usize, usize), u32>,
 }
 
 #[derive(Clone, Copy, Debug, PartialEq, Eq)]
@@ -73,6 +76,9 @@ impl RefStore {
     pub fn apply(&mut self, u: &Upd) -> Applied {
         let c = self.classify(u);
         if c != Applied::Changed {
+            if let (Applied::NoOp, Upd::AddAtt(a, b)) = (c, u) {
+                *self.repeats.entry((self.live[a], self.live[b])).or_insert(0) += 1;
+            }
             return c;
         }
         match u {
@@ -83,12 +89,14 @@ impl RefStore {
             Upd::DelArg(l) => {
                 let id = self.live.remove(l).unwrap();
                 self.attacks.retain(|(a, b)| *a != id && *b != id);
+                self.repeats.retain(|(a, b), _| *a != id && *b != id);
             }
             Upd::AddAtt(a, b) => {
                 self.attacks.insert((self.live[a], self.live[b]));
             }
             Upd::DelAtt(a, b) => {
                 self.attacks.remove(&(self.live[a], self.live[b]));
+                self.repeats.remove(&(self.live[a], self.live[b]));
             }
         }
         c
